@@ -307,7 +307,7 @@ def writer_model_stream(ctx, report, work, data_blobs, decoded):
         head, dd = parse_reply(rep)
         if head != "ok":
             continue
-        chunk_meta = {(cm[0], cm[1]): (cm[2], cm[3]) for cm in parse_list(dd.get("chunks", "[]"))}
+        chunk_meta = {(cm[0], cm[1]): (cm[2], cm[3], cm[4] if len(cm) > 4 else None) for cm in parse_list(dd.get("chunks", "[]"))}
         groups = {}
         for pg in parse_list(dd["pages"]):
             groups.setdefault((pg[0], pg[1]), []).append(pg)
@@ -370,6 +370,9 @@ def writer_model_stream(ctx, report, work, data_blobs, decoded):
             if sorted(cmeta[0]) != sorted(m_enc) or (cmeta[1] != -1 and sorted(cmeta[1]) != sorted(m_st)) or cmeta[1] == -1:
                 report.corr_break("wpage.chunk", {**rec, "what": f"ColumnMetaData.encodings / encoding_stats written {cmeta[0]} / {cmeta[1]}, the model of "
                                                   f"write_column records {m_enc} / {m_st}", "sig": "wpage:encoding_stats"})
+        if cmeta is not None and cmeta[2] is not None and "nullcount" in dd and int(cmeta[2]) != int(dd["nullcount"]):
+            report.corr_break("wpage.chunk", {**rec, "what": f"Statistics.null_count written {cmeta[2]}, the model of write_column records {dd['nullcount']} "
+                                              "(the sum of the pages' tallies; the v1 reader steps over level blocks when it is 0)", "sig": "wpage:null_count"})
         if dd.get("back") != "same":
             report.corr_break("wpage.chunk", {**rec, "what": "Spec.File does not decode the MODEL's own pages back to the cells (" + str(dd.get("back"))[:120]
                                               + "): the input is outside the theorem's hypotheses", "request": req[:4000], "sig": "wpage:back"})
